@@ -12,6 +12,7 @@ import sys
 sys.setrecursionlimit(1000000)
 
 MAXCASES = 256
+MAXPRODUCT = 16
 
 
 class T(object):
@@ -374,6 +375,9 @@ def _lift(f, sort, *ts):
             return None
         n *= k
     if n > MAXCASES:
+        return None
+    if len(ts) == 2 and ts[0].op != 'const' and ts[1].op != 'const' and n > MAXPRODUCT:
+        # a product of two trees entangles independent fields; leave it to the solver
         return None
     if sort == 'B':
         mkc = lambda v: TRUE if v else FALSE
@@ -906,7 +910,9 @@ def smt_defs(roots, declared=None):
         elif t.op == 'table':
             raise ValueError('table term in solver query')
         else:
-            lines.append('(define-fun n%d () %s %s)' % (t.id, sortstr(t.sort), body(t)))
+            # definitional equalities, not define-fun: z3 4.8.12 expands macros super-linearly (7 min for 400 KB)
+            lines.append('(declare-const n%d %s)' % (t.id, sortstr(t.sort)))
+            lines.append('(assert (= n%d %s))' % (t.id, body(t)))
     return '\n'.join(lines), vars_
 
 
